@@ -1,6 +1,6 @@
 import TracklibVerif.Lemmas.Simplify
 /-! Visvalingam: the `'@aire'` column is kept *consistent* by the loop (every interior entry is the area of the
-triangle spanned with the current neighbours), and what one pass does when no entry is below ARGMIN's sentinel.
+triangle spanned with the current neighbours), and what one pass does when no entry is a number below ARGMIN's sentinel or equal to it (b728412: a column of NaN).
 No property of the scalar type is used here. -/
 namespace TV.Simplify
 set_option linter.unusedSectionVars false
@@ -210,7 +210,7 @@ theorem aireVisval_mem (L : List (Fix α)) (i : Nat) (v : α) (h : aireVisval L 
         simp only [Option.some.injEq] at h
         exact ⟨p0, p1, p2, hqm p0 rfl, List.mem_of_getElem? h1, List.mem_of_getElem? h2, h.symm⟩
 
-/-! ### outside T6's hypothesis: no entry below the sentinel -/
+/-! ### outside T6's hypothesis: no entry is a number `<=` the sentinel (since b728412: only NaN) -/
 
 /-- ARGMIN's loop records no index when no entry is a number below the start value or equal to it -/
 theorem argminLoop_default (col : List (Option α)) (i : Nat) (m : α)
